@@ -28,6 +28,14 @@ func TestC04(t *testing.T) {
 		220, FOpts{MinGets: 1, MaxGets: 5, Keys: 2, FailRate: 0.35, FaultProb: 0.15, Hostile: true, FollowUp: true})
 }
 
+// TestC04Seq adds sequential Gets with fake-clock gaps around UpdateTTL / FailedUpdateTTL (part of C04's cases).
+func addC04Seq(t *testing.T, e *Env, cf *CaseFile) {
+	for i := 0; i < e.Pick(120, 1500); i++ {
+		out, _, _ := GenFailWin(t, e)
+		cf.Add(out.Term, "seq/"+out.Tag, out.Replay, out.Nontriv)
+	}
+}
+
 func tidList(g []GetSpec, f func(GetSpec) bool) string {
 	var it []uint64
 
@@ -58,62 +66,9 @@ func TestC05(t *testing.T) {
 	}
 
 	for i := 0; i < n; i++ {
-		conf := randFConf(e.Rng)
-		conf.FailedTTL = []int64{0, int64(5 * time.Second), -1}[e.Rng.Intn(3)]
-		conf.Debug, conf.Warn = false, false
-		ft := conf.EffFailedTTL()
-
-		if ft < 0 {
-			ft = int64(20 * time.Second)
-		}
-
-		ng := 3 + e.Rng.Intn(5)
-		failAt := e.Rng.Intn(ng - 1)
-		key := []byte("key1")
-
-		var (
-			gets []GetSpec
-			term string
-			rep  map[string]any
-		)
-
-		for j := 0; j < ng; j++ {
-			g := GetSpec{Tid: j + 1, Key: key, Plan: BuildPlan{Ok: j != failAt, Val: int64(200 + j), Err: int64(50 + j)}}
-
-			if j > failAt {
-				g.SleepBefore = []int64{ft / 2, ft * 94 / 100, ft * 106 / 100, 2 * ft}[e.Rng.Intn(4)]
-
-				if j > failAt+1 {
-					g.SleepBefore = []int64{1, ft / 10, ft / 2}[e.Rng.Intn(3)]
-				}
-			}
-
-			switch e.Rng.Intn(5) {
-			case 0:
-				g.HasCell, g.Cell = true, int64(5*time.Millisecond)
-			case 1:
-				g.HasCell, g.Cell = true, int64(time.Hour)
-			}
-
-			if e.Rng.Intn(8) == 0 {
-				g.Skip = true
-			}
-
-			gets = append(gets, g)
-		}
-
-		synctest.Test(t, func(t *testing.T) {
-			r := NewFEngine(t, e.Rng, conf)
-
-			defer r.Close()
-
-			r.Exec(gets, Policy{MaxSteps: 3000})
-			term = fmt.Sprintf("FCase %s %s %s", conf.Coq(), List(r.Labels), Z(int64(r.KeyLocks())))
-			rep = map[string]any{"conf": conf, "gets": gets, "steps": r.Replay, "results": r.results}
-		})
-
-		cf.Add(fmt.Sprintf("C05Case (%s) %s false", term, tidList(gets, func(g GetSpec) bool { return g.Skip })),
-			fmt.Sprintf("failwin/%s/ft=%d/sr=%v", conf.Variant, conf.FailedTTL, conf.SyncRead), rep, ng-failAt > 2)
+		out, gets, sr := GenFailWin(t, e)
+		cf.Add(fmt.Sprintf("C05Case (%s) %s false", out.Term, tidList(gets, func(g GetSpec) bool { return g.Skip })),
+			fmt.Sprintf("failwin/%s/ft=%d/sr=%v", out.Conf.Variant, out.Conf.FailedTTL, sr), out.Replay, out.Nontriv)
 	}
 
 	if err := cf.Write(e); err != nil {
@@ -144,16 +99,16 @@ func TestC06(t *testing.T) {
 		for _, o := range out.CtxObs {
 			// every builder context: not cancelled at entry; a background one is never cancelled nor
 			// deadlined by the caller and still exposes the caller's values
-			bg := o["doneNil"].(bool) && !o["deadline"].(bool)
+			bg := o["bg"].(bool)
 			if o["errAtEntry"] != "<nil>" || !o["valueVisible"].(bool) {
 				ctxOK = false
 			}
 
-			if bg && o["errAtExit"] != "<nil>" {
+			if bg && (o["errAtExit"] != "<nil>" || !o["doneNil"].(bool) || o["deadline"].(bool)) {
 				ctxOK = false
 			}
 
-			cf.Count(fmt.Sprintf("builder_ctx/doneNil=%v", o["doneNil"]), 1)
+			cf.Count(fmt.Sprintf("builder_ctx/bg=%v", o["bg"]), 1)
 		}
 
 		out.Replay["builderContexts"] = out.CtxObs
@@ -261,4 +216,86 @@ func TestC03(t *testing.T) {
 	if err := cf.Write(e); err != nil {
 		t.Fatal(err)
 	}
+}
+
+// GenFailWin runs sequential Gets on one key around a failing build: optional stale seed, a failing
+// build at a random position, later Gets at fake-clock offsets inside / outside the FailedUpdateTTL
+// window, sometimes after an ExpireAll of the backend; contexts with and without TTL, SkipRead.
+func GenFailWin(t *testing.T, e *Env) (FOut, []GetSpec, bool) {
+	conf := randFConf(e.Rng)
+	conf.FailedTTL = []int64{0, int64(5 * time.Second), -1}[e.Rng.Intn(3)]
+	conf.UpdateTTL = []int64{0, int64(10 * time.Second), int64(2 * time.Second)}[e.Rng.Intn(3)]
+	conf.Debug, conf.Warn = false, false
+	ft := conf.EffFailedTTL()
+
+	if ft < 0 {
+		ft = int64(20 * time.Second)
+	}
+
+	ng := 3 + e.Rng.Intn(5)
+	failAt := e.Rng.Intn(ng - 1)
+	key := []byte("key1")
+	seed := e.Rng.Intn(5) // 0,1: stale value present; 2: too stale; 3,4: nothing
+
+	var (
+		gets []GetSpec
+		out  FOut
+	)
+
+	for j := 0; j < ng; j++ {
+		g := GetSpec{Tid: j + 1, Key: key, Plan: BuildPlan{Ok: j != failAt, Val: int64(200 + j), Err: int64(50 + j)}}
+
+		switch {
+		case j > failAt:
+			g.SleepBefore = []int64{ft / 2, ft * 94 / 100, ft * 106 / 100, 2 * ft}[e.Rng.Intn(4)]
+
+			if j > failAt+1 {
+				g.SleepBefore = []int64{1, ft / 10, ft / 2}[e.Rng.Intn(3)]
+			}
+
+			g.ExpireAllBefore = e.Rng.Intn(4) == 0
+		case j > 0:
+			// earlier successful builds must have expired again for the failing build to happen
+			g.SleepBefore = []int64{int64(2 * time.Hour), int64(time.Second)}[e.Rng.Intn(2)]
+			g.ExpireAllBefore = e.Rng.Intn(2) == 0
+		}
+
+		switch e.Rng.Intn(5) {
+		case 0:
+			g.HasCell, g.Cell = true, int64(5*time.Millisecond)
+		case 1:
+			g.HasCell, g.Cell = true, int64(time.Hour)
+		}
+
+		if e.Rng.Intn(8) == 0 {
+			g.Skip = true
+		}
+
+		gets = append(gets, g)
+	}
+
+	synctest.Test(t, func(t *testing.T) {
+		r := NewFEngine(t, e.Rng, conf)
+		r.PostParks = e.Rng.Intn(2) == 0
+
+		defer r.Close()
+
+		switch seed {
+		case 0, 1:
+			r.Seed(key, 11, -2*time.Second)
+		case 2:
+			r.Seed(key, 11, -3*time.Hour)
+		}
+
+		r.Exec(gets, Policy{MaxSteps: 3000})
+		out.Term = fmt.Sprintf("FCase %s %s %s", conf.Coq(), List(r.Labels), Z(int64(r.KeyLocks())))
+		out.Replay = map[string]any{"conf": conf, "seed": seed, "gets": gets, "steps": r.Replay, "results": r.results, "finalKeyLocks": r.KeyLocks()}
+		out.PcStats = r.PcStats
+	})
+
+	out.Conf = conf
+	out.Nontriv = ng-failAt > 2
+	out.Tag = fmt.Sprintf("failwin/%s/ft=%d/ut=%d", conf.Variant, conf.FailedTTL, conf.UpdateTTL)
+
+	return out, gets, conf.SyncRead
 }
